@@ -1,9 +1,43 @@
-(* C06: filling an already filled surface changes no elevation (outlet modes 'edge' and user cells). *)
+(* C06: filling an already filled surface changes no elevation (all three outlet modes). *)
 From Coq Require Import List Arith ZArith Lia Bool.
 Import ListNotations.
 From PF Require Import Arr Codec Flood FloodSpec FloodTree FloodOpt.
 From PFG Require Import GenTables.
 Local Open Scope Z_scope.
+
+(* ---------- the lowest queue entry keeps its index when other keys only grow ---------- *)
+Lemma key_lt_lex za ia zb ib : key_lt (za, 1, ia) (zb, 1, ib) = (za <? zb) || ((za =? zb) && (ia <? ib)%nat).
+Proof. unfold key_lt. rewrite Z.ltb_irrefl, Z.eqb_refl. reflexivity. Qed.
+
+Lemma extract_min_some q : q <> [] -> exists m r, extract_min q = Some (m, r).
+Proof. destruct q as [|x t]; [congruence|]. intros _. cbn [extract_min].
+  destruct (extract_min t) as [[m r]|]; [destruct (key_lt x m)|]; eauto. Qed.
+
+Lemma extract_min_index (kx ky : nat -> Z) E s r : (forall i, In i E -> kx i <= ky i) ->
+  extract_min (map (fun i => (kx i, 1, i)) E) = Some ((kx s, 1, s), r) -> ky s = kx s ->
+  exists r', extract_min (map (fun i => (ky i, 1, i)) E) = Some ((ky s, 1, s), r').
+Proof.
+  intros Hle Hex Hs.
+  destruct (extract_min_spec _ _ _ Hex) as [Hperm Hmin].
+  assert (HsE : In s E).
+  { assert (Hin : In (kx s, 1, s) (map (fun i => (kx i, 1, i)) E)) by (apply Hperm; left; reflexivity).
+    apply in_map_iff in Hin. destruct Hin as [i [Heq Hi]]. inversion Heq; subst. exact Hi. }
+  destruct (extract_min_some (map (fun i => (ky i, 1, i)) E)) as [m' [r' Hex']]; [destruct E; [destruct HsE|discriminate]|].
+  destruct (extract_min_spec _ _ _ Hex') as [Hperm' Hmin'].
+  assert (Hm' : In m' (map (fun i => (ky i, 1, i)) E)) by (apply Hperm'; left; reflexivity).
+  apply in_map_iff in Hm'. destruct Hm' as [t [<- Ht]].
+  destruct (Nat.eq_dec t s) as [->|Hne]; [exists r'; exact Hex'|]. exfalso.
+  (* t is not below s for the old keys, s is not below t for the new ones *)
+  assert (H1 : key_lt (kx t, 1, t) (kx s, 1, s) = false).
+  { apply Hmin. assert (Hin : In (kx t, 1, t) (map (fun i => (kx i, 1, i)) E)) by (apply in_map_iff; exists t; auto).
+    apply Hperm in Hin. destruct Hin as [Heq|Hin]; [inversion Heq; congruence|exact Hin]. }
+  assert (H2 : key_lt (ky s, 1, s) (ky t, 1, t) = false).
+  { apply Hmin'. assert (Hin : In (ky s, 1, s) (map (fun i => (ky i, 1, i)) E)) by (apply in_map_iff; exists s; auto).
+    apply Hperm' in Hin. destruct Hin as [Heq|Hin]; [inversion Heq; congruence|exact Hin]. }
+  rewrite key_lt_lex in H1, H2. pose proof (Hle t Ht) as Hlt.
+  destruct (Z.ltb_spec (kx t) (kx s)), (Z.eqb_spec (kx t) (kx s)), (Nat.ltb_spec t s),
+           (Z.ltb_spec (ky s) (ky t)), (Z.eqb_spec (ky s) (ky t)), (Nat.ltb_spec s t); cbn in H1, H2; try discriminate; lia.
+Qed.
 
 Section Idem.
 Variables nrow ncol : nat.
@@ -12,7 +46,6 @@ Variable nodata conn mode : Z.
 Variable pits : list nat.
 Notation sz := (nrow * ncol)%nat.
 Hypothesis Hlen : length elv = sz.
-Hypothesis Hmode : mode <> 1.
 Hypothesis Hpits : mode = 2 -> forall p, In p pits -> isnodata elv nodata p = false.
 
 Notation st := (flood_state nrow ncol elv nodata conn mode pits).
@@ -45,8 +78,44 @@ Lemma is_edge_same j : is_edge nrow ncol Lv nodata conn j = is_edge nrow ncol el
 Proof. unfold is_edge. rewrite isnd_same. f_equal. f_equal. f_equal.
   induction (offs conn) as [|o l IH]; simpl; [reflexivity|]. rewrite isnd_same, IH. reflexivity. Qed.
 
+(* outlets = 'min': the single lowest edge cell (first in index order among equals) *)
+Definition q0 (X : list Z) : list (Z * Z * nat) :=
+  map (fun i => (nth i X 0, 1, i)) (filter (fun i => nth i (map (is_edge nrow ncol X nodata conn) (seq 0 sz)) false) (seq 0 sz)).
+
+Lemma seeds_mode1 X : mode = 1 -> seeds nrow ncol X nodata conn mode pits =
+  match extract_min (q0 X) with None => [] | Some ((_, _, i), _) => [i] end.
+Proof.
+  intros ->. unfold seeds, flood_init. change (1 =? 2) with false. change (1 =? 1) with true. cbv iota. fold (q0 X).
+  destruct (extract_min (q0 X)) as [[[[z b] i] r]|]; reflexivity.
+Qed.
+
+Lemma edge_cells_same : filter (fun i => nth i (map (is_edge nrow ncol Lv nodata conn) (seq 0 sz)) false) (seq 0 sz) =
+                        filter (fun i => nth i (map (is_edge nrow ncol elv nodata conn) (seq 0 sz)) false) (seq 0 sz).
+Proof. apply filter_ext_in. intros i Hi. apply in_seq in Hi. rewrite !map_seq_nth by lia. apply is_edge_same. Qed.
+
 Lemma seeds_same j : In j (seeds nrow ncol Lv nodata conn mode pits) <-> In j (seeds nrow ncol elv nodata conn mode pits).
-Proof. rewrite !seeds_char by auto. rewrite is_edge_same. reflexivity. Qed.
+Proof.
+  destruct (Z.eq_dec mode 1) as [Hm1|Hm1]; [|rewrite !seeds_char by auto; rewrite is_edge_same; reflexivity].
+  rewrite !seeds_mode1 by auto. unfold q0. rewrite edge_cells_same.
+  set (E := filter (fun i => nth i (map (is_edge nrow ncol elv nodata conn) (seq 0 sz)) false) (seq 0 sz)).
+  destruct (extract_min (map (fun i => (nth i elv 0, 1, i)) E)) as [[[[z b] s] r]|] eqn:Ex.
+  - (* the seed keeps its level, every other edge cell can only rise *)
+    destruct (extract_min_spec _ _ _ Ex) as [Hperm _].
+    assert (Hin : In (z, b, s) (map (fun i => (nth i elv 0, 1, i)) E)) by (apply Hperm; left; reflexivity).
+    apply in_map_iff in Hin. destruct Hin as [s' [Heq HsE]]. inversion Heq; subst s' b z. clear Heq.
+    assert (Hs_lt : (s < sz)%nat) by (unfold E in HsE; apply filter_In in HsE; destruct HsE as [Hs _]; apply in_seq in Hs; lia).
+    assert (Hseed : In s (seeds nrow ncol elv nodata conn mode pits)) by (rewrite seeds_mode1 by auto; fold E; unfold q0; fold E; rewrite Ex; left; reflexivity).
+    destruct (final_invs nrow ncol elv nodata conn mode pits Hpits) as (_ & HY & _).
+    destruct (y_seed _ _ _ _ _ _ _ HY s Hseed) as [_ Hdv].
+    destruct (extract_min_index (fun i => nth i elv 0) (fun i => nth i Lv 0) E s r) as [r' Hex'].
+    + intros i Hi. unfold E in Hi. apply filter_In in Hi. destruct Hi as [Hi _]. apply in_seq in Hi.
+      rewrite Lv_nth by lia. unfold filledv. destruct binv_st as (_ & _ & _ & _ & Hpos & _). specialize (Hpos i). lia.
+    + exact Ex.
+    + rewrite Lv_nth by auto. unfold filledv. rewrite Hdv. lia.
+    + cbv beta in Hex'. rewrite Hex'. reflexivity.
+  - assert (HE : E = []) by (destruct E as [|e E']; [reflexivity|cbn [map extract_min] in Ex; destruct (extract_min (map _ E')) as [[m r]|]; [destruct (key_lt _ m)|]; discriminate]).
+    rewrite HE. cbn [map extract_min]. reflexivity.
+Qed.
 
 Lemma Hpits' : mode = 2 -> forall p, In p pits -> isnodata Lv nodata p = false.
 Proof. intros Hm p Hp. rewrite isnd_same. auto. Qed.
